@@ -3,6 +3,14 @@
 import json, subprocess, os
 
 CLAIMS = {
+ "C05": dict(
+  text="Deductive proof, for every method of imapserver.Conn except serve and handleIdle and from an arbitrary entry state and configuration (TLS or not, InsecureAuth, any back-end outcome), that each call of a Session method is reached only in the RFC-permitted connection state (call-site obligations: Login only when not authenticated and over TLS or with InsecureAuth; Select/Create/.../Poll only when authenticated or selected; Unselect/Expunge/Search/Fetch/Store/Copy/Move only when selected), that checkState and canAuth have their exact meaning, that every handler other than login/authenticate/unauthenticate/select/unselect/logout leaves the state unchanged, and that those six perform exactly the RFC transitions for each back-end outcome (failed SELECT leaves no mailbox selected, etc.).",
+  note="Frames of calls without contract come from govc's may-write analysis (CHA for interface and function-value calls); back-end Session implementations cannot write Conn's unexported fields (Go visibility). Object invariant assumed at method entry: c != nil && c.server != nil. Not covered: Conn.serve (greeting, PREAUTH, loop exit at logout), handleIdle (goroutine), the SASL closure inside handleAuthenticate, the unknown-command BYE in readCommand.",
+  design="§6 C05"),
+ "C06": dict(
+  text="Deductive proof of the sequential, input-dependent part: no index/slice-bounds violation, failed type assertion, division by zero or reachable explicit panic in any method of imapserver.Conn (except serve, handleIdle) and of imapwire.Decoder, for all decoder outcomes (= all client byte streams); in particular Decoder.mustUnreadByte's panic is unreachable because every call follows a successful ReadByte (ghost state over the assumed bufio contract), and ExpectUIDSet's type assertion cannot fail.",
+  note="Nil-dereference freedom is NOT claimed (dereferences are assumed non-nil after the check point). Two configuration-guarding panics are assumed unreachable with the reason stated in the contract (availableCaps, handleStartTLS's CopyN). Not covered: disconnect at every byte offset, goroutine leaks, exactly-once cleanup in serve, memory caps, recursion depth (crash points / schedules / not yet under contract).",
+  design="§6 C06"),
  "C07": dict(
   text="Deductive proof that SessionTracker.DecodeSeqNum and EncodeSeqNum equal the fold of the per-update translation functions stepDec/stepEnc over the pending queue (unbounded queue length, all uint32 numbers), that the per-update translations are mutually inverse and yield zero exactly for the expunged / not-yet-announced message (lemmas for every well-formed update and count), and that the ghost folds terminate.",
   note="Mutex operations are no-ops (sequential reading under the lock). Queue-level composition of the per-update inverse lemmas, Poll and the fan-out in MailboxTracker.queueUpdate are not yet under contract.",
